@@ -291,3 +291,8 @@ class EffectsParser:
                 )
                 new_action.numeric_effects.add(numerical_precondition)
                 continue
+
+            raise SyntaxError(
+                f"Unsupported effect - {effect_node} in the action {new_action.name}! "
+                f"Ignoring it would change the meaning of the action."
+            )
